@@ -63,6 +63,12 @@ mod c17;
 #[path = "/verif/harness/daemon/c18.rs"]
 mod c18;
 
+// C18 "stalled snapshot" scenarios at the BMP boundary: needs a hand-built Global, hence a child of
+// `event`; under the same flag as c18 (c18.rs itself is also included by bmp::verif::c18b)
+#[cfg(verif_c18)]
+#[path = "/verif/harness/daemon/c18s.rs"]
+mod c18s;
+
 #[cfg(verif_c20)]
 #[path = "/verif/harness/daemon/c20.rs"]
 mod c20;
